@@ -206,6 +206,7 @@ func (s *Server) Run(segs [][]byte, end int, mod func(sc *netsim.ScriptConn)) *R
 		}
 	}()
 	// Engine.Serve closes the connection itself (errProcess) whenever it returns a non-nil error
+	netsim.Release(conn) // Serve has returned: nothing refers to the connection any more
 	res.Closed = sc.Closed
 	res.Out = sc.Out
 	res.Seen = append([]*Seen(nil), s.Log...)
